@@ -209,6 +209,28 @@ class Outcome:
         return '%s%s' % ( self.kind, '' if self.value is None else '( %r )' % ( self.value, ))
 
 
+def _store( tg, val, env ):
+    if isinstance( tg, ast.Name ):
+        env[tg.id] = val
+    elif isinstance( tg, ast.Subscript ):
+        base = fold( tg.value, env )
+        key = fold( tg.slice, env )
+        if not isinstance( base, ( dict, list )):
+            raise NoFold( 'store into %r' % type( base ).__name__ )
+        base[key] = val
+    elif isinstance( tg, ( ast.Tuple, ast.List )):
+        try:
+            vals = list( val )
+        except TypeError:
+            raise NoFold( 'unpack of %r' % type( val ).__name__ )
+        if len( vals ) != len( tg.elts ):
+            raise NoFold( 'unpack of %d values into %d targets' % ( len( vals ), len( tg.elts )))
+        for t, v in zip( tg.elts, vals ):
+            _store( t, v, env )
+    else:
+        raise NoFold( 'assignment target' )
+
+
 def run_block( stmts, env, ignore_calls=(), stop_at_yield=True ):
     """Evaluate a decision fragment ( assignments to locals and to subscripts of local containers, if / elif / else, assert, raise, return,
     yield, expression statements whose call name ends in one of `ignore_calls` ) over the concrete cell `env` ( dict, updated in place ).
@@ -229,22 +251,7 @@ def run_block( stmts, env, ignore_calls=(), stop_at_yield=True ):
                 continue
             raise NoFold( 'statement %s' % ast.dump( v )[:60] )
         if isinstance( st, ast.Assign ) and len( st.targets ) == 1:
-            val = fold( st.value, env )
-            tg = st.targets[0]
-            if isinstance( tg, ast.Name ):
-                env[tg.id] = val
-            elif isinstance( tg, ast.Subscript ):
-                base = fold( tg.value, env )
-                key = fold( tg.slice, env )
-                if not isinstance( base, ( dict, list )):
-                    raise NoFold( 'store into %r' % type( base ).__name__ )
-                base[key] = val
-            elif isinstance( tg, ( ast.Tuple, ast.List )):
-                local = {}
-                _bind( tg, val, local )
-                env.update( local )
-            else:
-                raise NoFold( 'assignment target' )
+            _store( st.targets[0], fold( st.value, env ), env )
             continue
         if isinstance( st, ast.If ):
             out = run_block( st.body if fold( st.test, env ) else st.orelse, env, ignore_calls, stop_at_yield )
